@@ -170,37 +170,49 @@ PENDING = {}
 
 # directed / enumerated families added while answering seeded changes and findings (DESIGN 9.4); appended to the level text
 EXTRA = {
-    "C01": "call shapes incl. explicit None arguments; C04's two-base, gap and diamond matrices; a recursion matrix.",
-    "C02": "multi-base matrix, directed adoption histories; falsy and BaseException-only error objects.",
+    "C01": "call shapes incl. explicit None arguments; C04's two-base, gap and diamond matrices; a recursion matrix; adoption "
+           "histories (a function already called is adopted as the override of a DBC member).",
+    "C02": "multi-base matrix, directed adoption histories; falsy and BaseException-only error objects; NotImplemented / "
+           "Ellipsis results.",
     "C03": "constructor / invariant-order matrices, built-in bases, renamed members (aliases, lambdas, no-wraps decorators, "
-           "also as __init__), undecorated middle classes, __setattr__ aliases, protected member names.",
-    "C04": "two-base / gap / diamond / invariant-order matrices, constructor cases, plain-attribute and meta-class-name cases.",
+           "also as __init__), undecorated middle classes, __setattr__ aliases, protected member names, nested contract-carrying "
+           "helpers that fail inside a constructor / method.",
+    "C04": "two-base / gap / diamond / invariant-order matrices, constructor cases, plain-attribute and meta-class-name cases, "
+           "decorator objects shared by base and override.",
     "C05": "flavours def / async / method / inherited override, re-entry, self by keyword, explicit None arguments, "
-           "keyword-only callback parameters, contract histories (every shape through one decorated function).",
+           "keyword-only callback parameters, contract histories (every shape through one decorated function), two precondition "
+           "groups with a missing name at every position.",
     "C06": "directed conditions (all() examples beyond repr limits, non-bool all() elements, unknown keyword values for a "
-           "tolerant callee), private-attribute value lines.",
-    "C07": "fourteen decorator layouts (incl. break before @ / before attribute dots, blanks after @, parenthesised "
+           "tolerant callee), private-attribute value lines, values inside comprehensions that depend on loop variables hiding an "
+           "argument (judged against the per-iteration values).",
+    "C07": "sixteen decorator layouts (incl. break before @ / before attribute dots, blanks after @, parenthesised "
            "decorator), re-written source files, scope cases (late-bound closure variables, private attributes), "
-           "condition kinds (function / partial / callable instance / bound method).",
-    "C08": "capture flavours, odd snapshot names, post-hoc duplicates.",
-    "C09": "falsy invalid error values; falsy and BaseException-only valid error objects.",
-    "C10": "closures sharing a code object, nested constructors, calls refused by the checker itself.",
+           "condition kinds (function / partial / callable instance / bound method), comments and string literals holding lone "
+           "parentheses / # / @.",
+    "C08": "capture flavours, odd snapshot names, post-hoc duplicates, captures that call their own callable.",
+    "C09": "falsy invalid error values; falsy and BaseException-only valid error objects; bound-method factories for every "
+           "kind of owner (unreferenced, deleted, __slots__, class) after a garbage collection.",
+    "C10": "closures sharing a code object, nested constructors, calls refused by the checker itself, child interpreters "
+           "with -O / -OO (enabled=True contracts re-entering themselves).",
     "C11": "interleaved coroutines in one context, context histories (copied contexts, failing constructor re-run), a fault "
-           "inside the awaited operation of a non-coroutine awaitable.",
+           "inside the awaited operation of a non-coroutine awaitable, real stack overflow at six stack alignments.",
     "C12": "threads switched inside invariants and argument reprs, constructor in flight, a sync method next to coroutine "
-           "methods, contexts copied mid-call.",
+           "methods, contexts copied mid-call, a postcondition that hinges on the identity of the value its own call captured.",
     "C13": "recursion pairs, signature pairs, colour triples (def / async def / async adapter), coroutine invariants, "
            "awaitable results.",
     "C14": "diamond and static-member class cases, colour cases, first parameter not called self, reserved names without "
            "postconditions, odd objects (array-like defaults, foreign __new__ results, property docs).",
     "C15": "re-entrant programs, descriptor objects, snapshot+ensure cells, colliding snapshot names across modes.",
-    "C16": "classes re-created through the meta-class (dataclass(slots=True)).",
+    "C16": "classes re-created through the meta-class (dataclass(slots=True)); mixed plain / coroutine / awaitable conditions "
+           "within one stack of an async callable.",
     "C17": "shared-object histories (dec / redec / cls / reuse / adopt / posthoc / partial / inv), reverse-order probing, "
-           "shared-function cases (open finding D45), property-posthoc cases.",
+           "shared-function cases (open finding D45), property-posthoc cases, late invariants, classes re-created and then "
+           "decorated.",
     "C18": "async callables, invariant cells incl. extended / redefined properties, interpreter modes, no capture for a "
            "rejected call.",
     "C19": "falsy invalid errors, reserved keyword without **kwargs, reserved parameter on an override without contracts.",
-    "C20": "maxlong and integers beyond it, Repr sub-classes, break-before-dot layout, closure and limits histories.",
+    "C20": "maxlong and integers beyond it, Repr sub-classes, break-before-dot layout, closure and limits histories, every "
+           "reprlib container kind around the default and own limits.",
 }
 
 ALL = ["C%02d" % i for i in range(1, 21)]
